@@ -135,7 +135,13 @@ def data_theory(eng, st, X: Arr):
         st.assume(z3.ForAll([j, s, e], z3.Implies(rng, RSS(j, s, e) == SSQ(j, s, e) - SUM(j, s, e) * SUM(j, s, e) / z3.ToReal(e - s)),
                             patterns=[RSS(j, s, e)]))
         st.assume(z3.ForAll([j, s, e], z3.Implies(rng, RSS(j, s, e) >= 0), patterns=[RSS(j, s, e)]))
-        eng.used_lemmas.update(["L_sqdev", "L_rss", "L_rss_nonneg"])
+        k_ = z3.Int("k!d")
+        mid = z3.And(0 <= s, s <= k_, k_ <= e, e <= n)
+        st.assume(z3.ForAll([j, s, k_, e], z3.Implies(mid, SUM(j, s, e) == SUM(j, s, k_) + SUM(j, k_, e)),
+                            patterns=[z3.MultiPattern(SUM(j, s, k_), SUM(j, k_, e))]))
+        st.assume(z3.ForAll([j, s, k_, e], z3.Implies(mid, SSQ(j, s, e) == SSQ(j, s, k_) + SSQ(j, k_, e)),
+                            patterns=[z3.MultiPattern(SSQ(j, s, k_), SSQ(j, k_, e))]))
+        eng.used_lemmas.update(["L_sqdev", "L_rss", "L_rss_nonneg", "L_add"])
     return th
 
 
@@ -222,8 +228,32 @@ def _data_lemma_proofs():
         (".base", defs(s), SQDEV(j, s, s, mu) >= 0),
         (".step", [s <= e] + defs(e) + [SQDEV(j, s, e, mu) >= 0], SQDEV(j, s, e + 1, mu) >= 0),
     ]
+    # L_add: SUM(j,s,e) == SUM(j,s,k)+SUM(j,k,e) for s<=k<=e (induction on e from k), same for SSQ
+    k = z3.Int("k!L")
+
+    def defs2(a_, e_):
+        return [SUM(j, a_, a_) == 0, SSQ(j, a_, a_) == 0,
+                z3.Implies(e_ >= a_, z3.And(SUM(j, a_, e_ + 1) == SUM(j, a_, e_) + X(e_, j),
+                                            SSQ(j, a_, e_ + 1) == SSQ(j, a_, e_) + X(e_, j) * X(e_, j)))]
+    out["L_add"] = [
+        (".base", defs2(k, k), z3.And(SUM(j, s, k) == SUM(j, s, k) + SUM(j, k, k), SSQ(j, s, k) == SSQ(j, s, k) + SSQ(j, k, k))),
+        (".step", [s <= k, k <= e] + defs2(s, e) + defs2(k, e) + [SUM(j, s, e) == SUM(j, s, k) + SUM(j, k, e), SSQ(j, s, e) == SSQ(j, s, k) + SSQ(j, k, e)],
+         z3.And(SUM(j, s, e + 1) == SUM(j, s, k) + SUM(j, k, e + 1), SSQ(j, s, e + 1) == SSQ(j, s, k) + SSQ(j, k, e + 1))),
+    ]
     return out
 
 
-for _nm in ("L_prefix", "L_sqdev", "L_rss", "L_rss_nonneg"):
+for _nm in ("L_prefix", "L_sqdev", "L_rss", "L_rss_nonneg", "L_add"):
     LEMMA_PROOFS[_nm] = (lambda nm=_nm: _data_lemma_proofs()[nm])
+
+
+@lemma("L_var", ["real"] * 3)
+def _l_var(ssq, sm, n):
+    """ssq/n - (sm/n)^2 == (ssq - sm^2/n)/n for n > 0 (variance from sums vs RSS/n)."""
+    return [n > 0], ssq / n - (sm / n) * (sm / n) == (ssq - sm * sm / n) / n
+
+
+@lemma("L_sq", ["real"] * 2)
+def _l_sq(x, y):
+    """x == y  =>  x*x == y*y (congruence made explicit for the nonlinear core)."""
+    return [x == y], x * x == y * y
